@@ -150,7 +150,7 @@ def cases(tier, seed):
                "gap": rnd.choice([0.0, 0.3, 2.0]), "one_slow": i % 2 == 0}
 
 
-def make_frame(gen, rnd, w, combo, obs):
+def make_frame(gen, rnd, w, combo, obs, kinds=None):
     """One console->client frame concerning some entities; mutates the console state so
     that error-text requests are answered consistently."""
     con = w.console
@@ -158,9 +158,9 @@ def make_frame(gen, rnd, w, combo, obs):
     ac_ids = [a["status"]["ac"] for a in inst["acs"]]
     zone_ids = [z["id"] for z in inst["zones"]]
     kind = "ac" if combo is not None else rnd.choice(
-        ["ac", "ac", "zone", "zone", "timer", "error", "version", "unknown"])
+        kinds or ["ac", "ac", "zone", "zone", "timer", "error", "version", "unknown"])
     if kind == "zone" and not zone_ids:
-        kind = "ac"
+        kind = "ac" if kinds is None else "timer"
     if kind == "ac":
         ids = [rnd.choice(ac_ids)] if combo is not None else rnd.sample(
             ac_ids + [rnd.choice([7, 3] if gen == 4 else [15, 9])],
